@@ -1586,6 +1586,133 @@ def unsynced_log_never_abandoned(ctx, p):
     ctx.ob(p + 'u0 appending-slot-anchor', 'anchor', 'log::Log', 'the sites that empty Log.appending were found (flush_one, and the torn-record arm of end_record)', n >= 2, '%d sites' % n)
 
 
+LOG_SLOTS = ['.Log.appending', '.Log.reading', '.Log.read_queue', '.Log.cleanup_queue', '.Log.log_pool', '.Log.replay_queue']
+# error exits that let go of a log file handle they took out of a slot or queue, reviewed: (function, slot) -> why nothing is lost
+LOG_HANDLE_DROPPED_ON_ERROR_OK = {
+    ('log::Log::read_next', '.Log.read_queue'): 'the rewind of a flushed log failed: the file stays on disk at its place in the id order; the commit worker stops on the error, the error shutdown enacts and deletes nothing, the next open replays the file',
+    ('log::Log::replay_next', '.Log.replay_queue'): 'the sync of a log found at open failed: Db::open fails as a whole and the next open reads the directory again',
+    ('log::Log::kill_logs', '.Log.reading'): 'the unlink of the last, completely enacted log failed at the end of a clean shutdown: the file stays, its replay is idempotent',
+    ('log::Log::kill_logs', '.Log.log_pool'): 'a pool file is empty (truncated and fsynced before it entered the pool): when its unlink fails the file stays and the next open deletes it',
+    ('log::Log::clean_logs', '.Log.log_pool'): 'a pool file is empty (truncated and fsynced before it entered the pool): when its unlink fails the file stays and the next open deletes it',
+    ('log::Log::end_record', '.Log.appending'): 'the append itself failed: the torn file must never reach the non-validating applier (rule k); the failed process_commits ends the log worker',
+}
+
+
+def log_handles_are_linear(ctx, p):
+    """Every log file of a session sits in exactly one place: the appending slot, the read queue, the reader slot, the cleanup queue,
+    the pool or the replay queue - what the stages do next is read off these places. A function of `Log` that takes a handle out of
+    one place puts it into another (or unlinks the file) before it returns. On SUCCESS exits that is unconditional. On error exits
+    it is required too (F82: a file dropped on the error exit of a failed fdatasync left the slot free for a newer file), except for
+    the reviewed (function, place) pairs of LOG_HANDLE_DROPPED_ON_ERROR_OK."""
+    F = ctx.F
+    TAKE1 = ['re:VecDeque.*::(pop_front|pop_back)$', 're:Option::<T>::take$', 're:^std::mem::(take|replace)$']
+    DRAIN = ['re:VecDeque.*::(drain|split_off)$', 're:Vec.*::drain$']
+    PUT = ['re:VecDeque.*::(push_back|push_front|extend|append|insert)$', 're:Extend<.*>>::extend$']
+    n = 0
+    logfns = [b for b in sorted(F.bodies.values(), key=lambda x: x.path) if b.path.startswith('log::Log::') and '{closure' not in b.path]
+    # helpers: one that PUTS a handle it is given into a slot (`retire_reader(reading)`) stands for the put at its call site; one that
+    # takes a handle and RETURNS it (`activate_writer() -> (id, file)`) hands the obligation to its callers
+    putters, returners = set(), {}
+    for b in logfns:
+        if any(call_matches(t, PUT) and t['a'] and any(f in lib.receiver_fields(b, t, 0) for f in LOG_SLOTS) for _bi, t in b.calls()):
+            putters.add(b.path)
+        ret_sl = backward_slice(b, [[0]])
+        for bi, t in b.calls():
+            if bi in b.normal_blocks() and call_matches(t, TAKE1) and t['a'] and any(x == bi for x, _ in ret_sl.call_sites) and re.search(r'File|log::Appending|log::Reading', str(b.locals[0])):
+                for f in LOG_SLOTS:
+                    if f in lib.receiver_fields(b, t, 0):
+                        returners[b.path] = f
+    for b in logfns:
+        nb = b.normal_blocks()
+        takes = [(bi, f) for bi, t in b.calls() if bi in nb and call_matches(t, TAKE1) and t['a'] for f in LOG_SLOTS if f in lib.receiver_fields(b, t, 0)]
+        if b.path in returners:
+            takes = [(bi, f) for bi, f in takes if f != returners[b.path]]
+        takes += [(bi, returners[nm]) for bi, t in b.calls() if bi in nb for nm in call_names(t) if nm in returners and nm != b.path]
+        # `*slot = None` is a take as well
+        for bi in nb:
+            for st in b.blocks[bi]['s']:
+                if st['k'] == 'assign' and re.search(r'Option<log::(Appending|Reading)>', str(b.locals[st['p'][0]])) and ('*' in st['p'][1:] or any(f in st['p'][1:] for f in LOG_SLOTS)):
+                    ak = _stored_aggregate(b, st)
+                    if ak == 'Adt:std::option::Option::None':
+                        takes.append((bi, '.Log.appending' if 'Appending' in str(b.locals[st['p'][0]]) else '.Log.reading'))
+        drains = [(bi, f) for bi, t in b.calls() if bi in nb and call_matches(t, DRAIN) and t['a'] for f in LOG_SLOTS if f in lib.receiver_fields(b, t, 0)]
+        if not takes and not drains:
+            continue
+        puts = set(bi for bi, t in b.calls() if bi in nb and call_matches(t, PUT) and t['a'] and any(f in lib.receiver_fields(b, t, 0) for f in LOG_SLOTS))
+        puts |= set(lib.sites_reaching(b, ['re:fs::remove_file$']))
+        puts |= set(bi for bi, t in b.calls() if bi in nb and any(nm in putters and nm != b.path for nm in call_names(t)))
+        for bi in nb:
+            for st in b.blocks[bi]['s']:
+                if st['k'] == 'assign' and re.search(r'Option<log::(Appending|Reading)>', str(b.locals[st['p'][0]])) and ('*' in st['p'][1:] or any(f in st['p'][1:] for f in LOG_SLOTS)):
+                    if _stored_aggregate(b, st) != 'Adt:std::option::Option::None':
+                        puts.add(bi)
+        errs = core.error_exit_blocks(b)
+        work = []
+        for e, f in takes:
+            starts = list(b.succ(e))
+            te = b.term(e)
+            if te['k'] == 'call' and te.get('d') and len(te['d']) == 1:
+                for x in sorted(b.reachable_from(starts, removed=set())):
+                    tx = b.term(x)
+                    d = lib.switch_def(b, x) if tx['k'] == 'switch' else None
+                    if d and d[2] == 'assign' and d[3]['r']['k'] == 'discr' and d[3]['r']['p'][0] == te['d'][0] and b.dominates(e, x):
+                        some = [tg for v, tg in zip(tx['vals'], tx['ts']) if v == 1]
+                        if some:
+                            starts = some
+                            break
+            if te['k'] == 'call' and any(nm in returners for nm in call_names(te)) and str(b.locals[te['d'][0]]).startswith('std::result::Result<'):
+                # a helper that answers Result<handle>: a handle was taken only on its Ok outcome
+                oks = [tg for _sb, v, tg in lib.result_switch_edges(b, e) if v == 0]
+                if oks:
+                    starts = oks
+            work.append((e, f, starts, None))
+        for e, f in drains:
+            # the handles leave one by one in the loop over the drained range; a drain handed to `extend` / `collect` as a whole moves them all
+            lps = [lp for lp in lib.for_loops_over(b) if e in b.reaches(lp['head']) or lp['head'] in b.reachable_from(list(b.succ(e)))]
+            lps = [lp for lp in lps if any(x == e for x, _ in backward_slice(b, [op_place(b.term(lp['head'])['a'][0])]).call_sites)] if lps else []
+            for lp in lps:
+                work.append((e, f, [lp['some']], lp['head']))
+        seen_keys = {}
+        for e, f, starts, head in work:
+            n += 1
+            stop = puts | ({head} if head is not None else set())
+            if e in errs:
+                # the handle is let go in the block that already holds the error result: an error exit
+                w_ok = None
+                w_err = b.find_path(starts, set(b.return_blocks()), removed=stop)
+            else:
+                w_ok = b.find_path(starts, set(b.return_blocks()), removed=stop | errs)
+                w_err = None
+                for x in errs:
+                    w_err = w_err or b.find_path(starts, {x}, removed=stop)
+            key = '%s %s' % (b.path, f.split('.')[-1])
+            seen_keys[key] = seen_keys.get(key, 0) + 1
+            if seen_keys[key] > 1:
+                key += ' #%d' % seen_keys[key]
+            ctx.ob(p + 'L log-handle-placed-on-success %s' % key, 'K1-must-pass', b.path,
+                   'a log file handle taken out of a slot or queue of Log is put into another one (or its file is unlinked) on every success path of the function',
+                   w_ok is None, '' if w_ok is None else 'success path that lets go of the handle: ' + lib.short_path(b, w_ok), b.loc(e))
+            why = LOG_HANDLE_DROPPED_ON_ERROR_OK.get((b.path, f))
+            if w_err is not None and why:
+                ctx.ob(p + 'Le log-handle-placed-on-error %s' % key, 'K1-must-pass', b.path, 'reviewed exception: ' + why, True, '', b.loc(e))
+            else:
+                ctx.ob(p + 'Le log-handle-placed-on-error %s' % key, 'K1-must-pass', b.path,
+                       'a log file handle taken out of a slot or queue of Log is put into another one (or put back) on every ERROR exit as well: a handle dropped on an error exit leaves a file that no stage knows about while the others go on',
+                       w_err is None, '' if w_err is None else 'error exit that lets go of the handle: ' + lib.short_path(b, w_err), b.loc(e))
+    ctx.ob(p + 'L0 log-handle-sites', 'anchor', 'log::Log', 'the places where Log moves file handles between its slots and queues were found', n >= 8, '%d sites' % n)
+
+
+def _stored_aggregate(b, st):
+    r = st['r']
+    if r['k'] == 'agg':
+        return r['ak']
+    if r['k'] == 'use' and op_place(r['a'][0]) is not None and len(op_place(r['a'][0])) == 1:
+        ds = [d for d in b.defs().get(op_place(r['a'][0])[0], []) if d[2] == 'assign']
+        if len(ds) == 1 and ds[0][3]['r']['k'] == 'agg':
+            return ds[0][3]['r']['ak']
+    return None
+
+
 def failed_cleanup_keeps_queue_order(ctx, p):
     """Log::clean_logs takes the oldest logs off the cleanup queue and truncates them. A log may leave the queue for good only once
     it IS truncated: if truncating fails, every log taken off and not yet cleaned goes back to the front of the queue. Forgetting
